@@ -26,8 +26,11 @@ def execute(binp, cases, sd, name, timeout=900, extra_args=()):
     return tp
 
 
-def judge(chk, module, cfg, tp, sig_of, name, timeout=900, env=None):
-    viols, r = vlib.observe(module, cfg, tp, timeout=timeout, env=env)
+def judge(chk, module, cfg, tp, sig_of, name, timeout=900, env=None, parts=1):
+    if parts > 1:
+        viols, r = vlib.observe_parallel(module, cfg, tp, parts=parts, timeout=timeout, env=env)
+    else:
+        viols, r = vlib.observe(module, cfg, tp, timeout=timeout, env=env)
     chk.add_tlc("P:%s over %s" % (module, name), r)
     if not viols:
         return 0
